@@ -28,3 +28,6 @@ def check(ctx: Ctx) -> None:
     # 'it returns': a spawner blocked on a full pool is woken only by a released slot - a slot that is acquired and then neither handed
     # to a task nor given back (e.g. the acquirer is interrupted in between) leaves that spawner, and gather_and_close with it, waiting forever
     S.r_who_release(ctx, "R08.10")
+    # '... whatever was requested or cancelled just before it': a cancelled group whose spawner was left alive goes on starting tasks the close then waits for
+    from . import cancel as K
+    K.r_group_helper(ctx, "R08.11")
